@@ -465,12 +465,21 @@ func failKey(p Prog, sem bool) (key string, q Prog, v verdict) {
 	for _, l := range lits {
 		c := Prog{Defs: []Def{{Kind: "const", Name: "a", Ty: Ty{Name: "string"}, Val: CV{Kind: "lit", Lit: l}}}}
 		if cv := checkSrc(c.Render(), sem); cv.Class != "" && cv.Class != "gen-reject" {
+			// minimise the literal once more inside the canonical program (cheap; the first shrink may have run out of budget)
+			c2, cv2 := shrink(c, cv.Class, sem)
+			if len(c2.Defs) == 1 && c2.Defs[0].Val.Kind == "lit" {
+				return "literal:" + vl.Hex(litValue(c2.Defs[0].Val.Lit)), c2, cv2
+			}
 			return "literal:" + vl.Hex(litValue(l)), c, cv
 		}
 	}
 	for _, l := range lits {
 		c := Prog{Defs: []Def{{Kind: "typedef", Name: "a", Ty: Ty{Name: "i32", Anns: []Ann{{"a", l}}}}}}
 		if cv := checkSrc(c.Render(), sem); cv.Class != "" && cv.Class != "gen-reject" {
+			c2, cv2 := shrink(c, cv.Class, sem)
+			if len(c2.Defs) == 1 && len(c2.Defs[0].Ty.Anns) == 1 {
+				return "type-annotation:" + vl.Hex(litValue(c2.Defs[0].Ty.Anns[0].V)), c2, cv2
+			}
 			return "type-annotation:" + vl.Hex(litValue(l)), c, cv
 		}
 	}
